@@ -84,7 +84,7 @@ class Sink(Node):
 
         
 
-        self.in_edge_events = [edge.inbuiltstore.reserve_get() for edge in self.in_edges]
+        self.in_edge_events = [edge.reserve_get() for edge in self.in_edges]
         
         triggered_in_edge_events = self.env.any_of(self.in_edge_events)
         yield triggered_in_edge_events  # Wait for any in_edge to be available
